@@ -2,7 +2,7 @@
 (* C05 - formatting a file never changes its meaning or loses its comments.   *)
 (*                                                                            *)
 (* Part (a), Canon: the text AstPrinter::render writes for an AST without     *)
-(* comments, one clause per arm of src/ast/printer/mod.rs:132-633, as a       *)
+(* comments, one clause per arm of src/ast/printer/mod.rs:132-635, as a       *)
 (* sequence of characters; checked over an exhaustively enumerated bounded    *)
 (* AST domain (all parser-producible trees of the forms below over small      *)
 (* pools, every literal class of the quantifier) for                          *)
@@ -15,9 +15,9 @@
 (* Part (b), the comment placer: see below.                                   *)
 (*                                                                            *)
 (* Recorded defects of the code are NAMED DEVIATIONS (constant Deviations):   *)
-(*   RangeStepColons         printer/mod.rs:507-512 writes start `:` `:` step *)
+(*   RangeStepColons         printer/mod.rs:523-529 writes start `:` `:` step *)
 (*                           end  (0:2:10 -> 0::210)                          *)
-(*   FloatNoFraction         printer/mod.rs:204 `{}` of an f64 without        *)
+(*   FloatNoFraction         printer/mod.rs:215 `{}` of an f64 without        *)
 (*                           fraction has no `.`  (1.0 -> 1, 1e20 -> digits)  *)
 (*   BareFieldNotAWord       printer/mod.rs:65-80 is_bareword admits names    *)
 (*                           the tokenizer does not read as one word (`_a`,   *)
@@ -95,7 +95,7 @@ AssertS(x) == [s |-> "assert", x |-> x]
 OutS(f, x) == [s |-> "out", fmt |-> f, x |-> x]
 ConS(n, x) == [s |-> "constraint", nm |-> n, x |-> x]
 
-(* ---- literal text: render_value, printer/mod.rs:196-211 ---------------------- *)
+(* ---- literal text: render_value, printer/mod.rs:210-223 ---------------------- *)
 DigitCh(d) == SubSeq("0123456789", d + 1, d + 1)
 RECURSIVE Digits(_)
 Digits(n) == IF n < 10 THEN << DigitCh(n) >> ELSE Append(Digits(n \div 10), DigitCh(n % 10))
@@ -116,7 +116,7 @@ FloatText(v, devs) ==
        ELSE LET d == Pow2(v.fk)
             IN Digits(v.fn \div d) \o (IF v.fn % d = 0 THEN noFrac ELSE << "." >> \o FracDigits(v.fn % d, d))
 
-(* escape_quotes, printer/mod.rs:181-194 *)
+(* escape_quotes, printer/mod.rs:196-208 *)
 RECURSIVE Escape(_)
 Escape(cs) == IF cs = << >> THEN << >>
               ELSE (IF Head(cs) = "DQ" THEN << "BS", "DQ" >> ELSE IF Head(cs) = "BS" THEN << "BS", "BS" >> ELSE << Head(cs) >>)
@@ -163,7 +163,7 @@ RECURSIVE CE(_, _, _), CFlds(_, _, _), CElems(_, _, _), CArgs(_, _, _, _), CFmtA
 (* optional ` :: constraint` *)
 COpt(con, ind, devs) == IF con = << >> THEN << >> ELSE Chars(" :: ") \o CE(con[1], ind, devs)
 
-(* render_tuple_def, printer/mod.rs:153-179: one field per line, trailing comma *)
+(* render_tuple_def, printer/mod.rs:154-194: one field per line, trailing comma *)
 CFlds(fs, ind, devs) ==
   IF fs = << >> THEN Chars("{}")
   ELSE << "{", "LF" >>
@@ -171,27 +171,27 @@ CFlds(fs, ind, devs) ==
                   Sp(ind + IndentSize) \o FieldText(fs[j].nm, devs) \o COpt(fs[j].con, ind + IndentSize, devs)
                   \o Chars(" = ") \o CE(fs[j].ex, ind + IndentSize, devs) \o << ",", "LF" >>])
        \o Sp(ind) \o << "}" >>
-(* render_list_def, printer/mod.rs:132-151 *)
+(* render_list_def, printer/mod.rs:132-152 *)
 CElems(xs, ind, devs) ==
   IF xs = << >> THEN Chars("[]")
   ELSE << "[", "LF" >>
        \o Flat([j \in 1..Len(xs) |-> Sp(ind + IndentSize) \o CE(xs[j], ind + IndentSize, devs) \o << ",", "LF" >>])
        \o Sp(ind) \o << "]" >>
-(* Call arguments, printer/mod.rs:264-285: one per line only when there are two or more *)
+(* Call arguments, printer/mod.rs:272-296: one per line only when there are two or more *)
 CArgs(as, ind, devs, j) ==
   IF Len(as) <= 1 THEN (IF as = << >> THEN << >> ELSE CE(as[1], ind + IndentSize, devs))
   ELSE << "LF" >> \o Flat([q \in 1..Len(as) |-> Sp(ind + IndentSize) \o CE(as[q], ind + IndentSize, devs) \o << ",", "LF" >>])
        \o Sp(ind)
-(* list-form format arguments, printer/mod.rs:319-338: `(` newline, `,` newline between, `)` glued *)
+(* list-form format arguments, printer/mod.rs:329-348: `(` newline, `,` newline between, `)` glued *)
 CFmtArgs(as, ind, devs, j) ==
   IF j > Len(as) THEN << >>
   ELSE (IF j = 1 THEN << >> ELSE << ",", "LF" >>) \o Sp(ind + IndentSize) \o CE(as[j], ind + IndentSize, devs)
        \o CFmtArgs(as, ind, devs, j + 1)
-(* func parameters, printer/mod.rs:341-361 *)
+(* func parameters, printer/mod.rs:351-373 *)
 CParams(ps, ind, devs, j) ==
   IF j > Len(ps) THEN << >>
   ELSE (IF j = 1 THEN << >> ELSE Chars(", ")) \o NameText(ps[j].nm) \o COpt(ps[j].con, ind, devs) \o CParams(ps, ind, devs, j + 1)
-(* constraint arms, printer/mod.rs:548-570 *)
+(* constraint arms, printer/mod.rs:555-578 *)
 CArms(arms, ind, devs, j) ==
   IF j > Len(arms) THEN << >>
   ELSE (IF j = 1 THEN << >> ELSE Chars(" | "))
@@ -200,7 +200,7 @@ CArms(arms, ind, devs, j) ==
                   \o (IF arms[j].hi = << >> THEN << >> ELSE CE(arms[j].hi[1], ind, devs))
              ELSE CE(arms[j].x, ind, devs))
        \o CArms(arms, ind, devs, j + 1)
-(* module body, printer/mod.rs:477-485: the indent is written BEFORE render_stmt writes the  *)
+(* module body, printer/mod.rs:498-507: the indent is written BEFORE render_stmt writes the  *)
 (* separating newline, so every statement but the first starts in column 0 after a line of  *)
 (* blanks (cosmetic; transcribed)                                                            *)
 CBody(ss, ind, devs, j) ==
@@ -234,7 +234,7 @@ CE(x, ind, devs) ==
                          \o (IF x.out = << >> THEN << >>
                              ELSE << "(" >> \o CE(x.out[1], ind, devs) \o COpt(x.outcon, ind, devs) \o Chars(") "))
                          \o << "{", "LF" >> \o CBody(x.body, ind, devs, 1) \o << "}" >>
-    (* Range, printer/mod.rs:497-513.  Design: start `:` step `:` end.                 *)
+    (* Range, printer/mod.rs:516-532.  Design: start `:` step `:` end.                 *)
     (* RangeStepColons: both colons are written before the step, none after it.       *)
     [] x.e = "range" -> CE(x.lo, ind, devs) \o << ":" >>
                         \o (IF x.step = << >> THEN << >>
@@ -246,7 +246,7 @@ CE(x, ind, devs) ==
                          \o Chars(") => ") \o CFlds(x.flds, ind, devs)
     [] x.e = "constraint" -> CArms(x.arms, ind, devs, 1)
 
-(* render_stmt, printer/mod.rs:575-620 *)
+(* render_stmt, printer/mod.rs:584-620 *)
 CStmt(st, pfx, ind, devs) ==
   (IF pfx THEN << "LF" >> ELSE << >>)
   \o (CASE st.s = "let" -> Chars("let ") \o NameText(st.nm) \o COpt(st.con, ind, devs) \o Chars(" = ") \o CE(st.x, ind, devs)
@@ -255,7 +255,7 @@ CStmt(st, pfx, ind, devs) ==
         [] st.s = "out" -> Chars("out ") \o Chars(st.fmt) \o << " " >> \o CE(st.x, ind, devs)
         [] st.s = "constraint" -> Chars("constraint ") \o NameText(st.nm) \o Chars(" = ") \o CE(st.x, ind, devs))
   \o << ";", "LF" >>
-(* render, printer/mod.rs:622-633 (no comment map) *)
+(* render, printer/mod.rs:622-634 (no comment map) *)
 Canon(prog, devs) == Flat([j \in 1..Len(prog) |-> CStmt(prog[j], j > 1, 0, devs)])
 
 (* ---- Same: equality up to field-name quoting ---------------------------------------- *)
@@ -485,12 +485,12 @@ CanonEmit == idx > 0 =>
 (* Part (b): the comment placer of `ucg fmt`.                                  *)
 (*                                                                            *)
 (* Code transcribed:                                                          *)
-(*   tokenizer/mod.rs:535-596   comment groups -> CommentMap (keyed by the    *)
+(*   tokenizer/mod.rs:513-575   comment groups -> CommentMap (keyed by the    *)
 (*                              line of the group's LAST comment)             *)
 (*   printer/mod.rs:50-55       with_comment_map: pending = reversed keys     *)
 (*   printer/mod.rs:82-130      print_comment_group, render_missed_comments,  *)
 (*                              render_comment_if_needed, has_comment         *)
-(*   printer/mod.rs:575-633     render_stmt (prefix newline), render (tail)   *)
+(*   printer/mod.rs:584-634     render_stmt (prefix newline), render (tail)   *)
 (*                                                                            *)
 (* A LAYOUT is the line skeleton of a source file: per line what code sits on *)
 (* it (a statement head "s", an inner node "n" of the statement above, or     *)
@@ -525,7 +525,7 @@ Frags == { << >>, << "sp" >>, << "x" >>, << "sp", "x", "sp" >>, << "x", "sp", "s
 RECURSIVE TrimEnd(_)
 TrimEnd(f) == IF f # << >> /\ f[Len(f)] = "sp" THEN TrimEnd(SubSeq(f, 1, Len(f) - 1)) ELSE f
 
-(* print_comment_group, printer/mod.rs:88-96: what follows `//` in the output.   *)
+(* print_comment_group, printer/mod.rs:82-98: what follows `//` in the output.   *)
 (* Design: a comment without text is written back as `//`.                       *)
 (* BlankCommentPadded: first_char of an empty fragment is '\0', "not whitespace", *)
 (* so `// ` + "" is written - a trailing blank that the next pass trims again.   *)
@@ -577,11 +577,11 @@ Spiced(ls) ==
 CmLines(ls) == SetToSortSeq({i \in 1..Len(ls) : ls[i].cm # "no"}, <)
 SrcComments(ls) == LET cl == CmLines(ls) IN [j \in 1..Len(cl) |-> [id |-> j, ln |-> cl[j], f |-> ls[cl[j]].f]]
 
-(* ---- tokenizer: comment groups (tokenizer/mod.rs:535-596) ------------------- *)
+(* ---- tokenizer: comment groups (tokenizer/mod.rs:513-575) ------------------- *)
 (* A group is closed by the next non-comment token, white space included: a      *)
 (* comment joins the group of the comment on the line above iff nothing but that *)
 (* comment's own line end lies between them (code "-", cm "c").                  *)
-(* KeywordSwallowsComment (tokenizer/mod.rs:153-165, do_text_token_tok! ... WS): *)
+(* KeywordSwallowsComment (tokenizer/mod.rs:155-168, do_text_token_tok! ... WS): *)
 (* a keyword recogniser consumes `either!(whitespace, comment)`, so a comment    *)
 (* glued to `in`, `not`, `let` ... never becomes a COMMENT token.                *)
 Close(acc, grp) == IF grp = << >> THEN acc ELSE Append(acc, [ln |-> grp[Len(grp)].ln, cs |-> grp])
@@ -622,9 +622,9 @@ InitM(lay) == [lay |-> lay, lay0 |-> lay, src |-> SrcComments(lay.lines), ph |->
                vi |-> 1, cur |-> NoVisit, go |-> FALSE, out |-> << >>, out1 |-> << >>, last |-> 0]
 
 Top(x) == x.pend[Len(x.pend)]
-(* render_missed_comments' loop condition (printer/mod.rs:102-106) *)
+(* render_missed_comments' loop condition (printer/mod.rs:100-117) *)
 More(x) == x.go /\ x.pend # << >> /\ Top(x) <= x.cur.ln
-(* has_comment (printer/mod.rs:124-129): strictly before the line *)
+(* has_comment (printer/mod.rs:125-130): strictly before the line *)
 HasComment(x, line) == x.pend # << >> /\ Top(x) < line
 GroupAt(x, line) == LET hit == {j \in 1..Len(x.groups) : x.groups[j].ln = line}
                     IN IF hit = {} THEN << >> ELSE x.groups[CHOOSE j \in hit : TRUE].cs
@@ -636,7 +636,7 @@ Do_Tokenize(x, devs) ==
   IN [x EXCEPT !.groups = gs, !.pend = [j \in 1..Len(gs) |-> gs[Len(gs) + 1 - j].ln],
                !.vis = Visits(x.lay), !.vi = 1, !.ph = "visit", !.out = << >>, !.last = 0]
 
-(* entering a visit: render_stmt writes the separating newline first (printer/mod.rs:577-579) *)
+(* entering a visit: render_stmt writes the separating newline first (printer/mod.rs:586-588) *)
 En_Enter(x) == x.ph = "visit" /\ x.vi <= Len(x.vis)
 Do_Enter(x, devs) ==
   LET v == x.vis[x.vi]
@@ -660,7 +660,7 @@ Do_Leave(x, devs) ==
   [x EXCEPT !.out = IF x.cur.k \in {"s", "n"} THEN Append(@, Item(x.cur.k, 0, << >>, x.cur.o, x.cur.ln)) ELSE @,
             !.last = x.cur.ln, !.vi = @ + 1, !.ph = "visit"]
 
-(* render(): after the statements, everything that is left (printer/mod.rs:628-631); *)
+(* render(): after the statements, everything that is left (printer/mod.rs:628-632); *)
 (* comment_group_lines.first() is the LARGEST key                                   *)
 En_Tail(x) == x.ph = "visit" /\ x.vi > Len(x.vis)
 Do_Tail(x, devs) ==
@@ -748,7 +748,7 @@ FixedPoint == Done => FixedOf(m) # "no"
 KindIx(l) == (IF l.code = "s" THEN 1 ELSE IF l.code = "n" THEN 2 ELSE 3) + (IF l.cm = "no" THEN 0 ELSE IF l.cm = "c" THEN 3 ELSE 6)
                 + 11 * Len(l.f) + (IF l.f # << >> /\ l.f[1] = "x" THEN 5 ELSE 0)
 RECURSIVE LayHashFrom(_, _)
-LayHashFrom(ls, i) == IF i > Len(ls) THEN 0 ELSE ((2 * i + 1) * KindIx(ls[i]) + 3 * LayHashFrom(ls, i + 1)) % 1000003
+LayHashFrom(ls, i) == IF i > Len(ls) THEN 0 ELSE ((2 * i + 1) * KindIx(ls[i]) + 31 * LayHashFrom(ls, i + 1)) % 1000003
 LayHash(lay) == (LayHashFrom(lay.lines, 1) + 7 * lay.glue + (IF lay.look THEN 3 ELSE 0)) % 1000003
 
 View(x) == [out |-> [j \in 1..Len(x.out1) |-> [k |-> x.out1[j].k, id |-> x.out1[j].id, f |-> x.out1[j].f, o |-> x.out1[j].o]],
